@@ -549,10 +549,29 @@ fn small_model(rng: &mut Rng) -> M {
     M { desc: None, types, dirs: vec![], query: "Query".into(), mutation: None, subscription: None, explicit: false }
 }
 
+
+// ------------------------------------------------------------------ the real CLI on twin projects
+
+/// runs `nitrogql-cli check generate` in `dir` (schema file `schema_file`), returns (exit ok, schema.d.ts text, stdout+stderr)
+fn run_cli_project(cli: &std::path::Path, dir: &std::path::Path, schema_file: &str, schema_text: &str, docs: &[String]) -> (bool, Option<String>, String) {
+    let _ = std::fs::remove_dir_all(dir);
+    std::fs::create_dir_all(dir.join("ops")).unwrap();
+    std::fs::write(dir.join(schema_file), schema_text).unwrap();
+    for (i, d) in docs.iter().enumerate() { std::fs::write(dir.join(format!("ops/q{i}.graphql")), d).unwrap(); }
+    let cfg = format!("schema: ./{schema_file}\ndocuments:\n  - ./ops/*.graphql\nextensions:\n  nitrogql:\n    generate:\n      schemaOutput: ./out/schema.d.ts\n      type:\n        scalarTypes:\n          Date: string\n          JSON: string\n          Url: string\n");
+    std::fs::write(dir.join("graphql.config.yaml"), cfg).unwrap();
+    let o = std::process::Command::new(cli).current_dir(dir).args(["--output-format", "json", "check", "generate"]).output().expect("cli runs");
+    let text = std::fs::read_to_string(dir.join("out/schema.d.ts")).ok();
+    (o.status.success(), text, format!("{}\n{}", String::from_utf8_lossy(&o.stdout), String::from_utf8_lossy(&o.stderr)))
+}
+/// lines without the indentation SourceWriter adds; blank lines (the CLI adds one built-in directive definition, which prints
+/// as a blank line per namespace) and the sourceMappingURL trailer dropped
+fn unindent(s: &str) -> String { s.lines().map(|l| l.trim_start()).filter(|l| !l.is_empty() && !l.starts_with("//# sourceMappingURL=")).collect::<Vec<_>>().join("\n") }
+
 // ------------------------------------------------------------------ main
 
 #[derive(Default)]
-struct Stats { n_guard: usize, n_routes: usize, n_docs: usize, n_verdict_diff: usize, n_alias_strict: usize, n_alias_text_diff: usize, n_json: usize, json_outcomes: BTreeMap<String, usize>, mutation_kinds: BTreeMap<String, usize>,
+struct Stats { n_cli: usize, n_cli_exit_diff: usize, n_guard: usize, n_routes: usize, n_docs: usize, n_verdict_diff: usize, n_alias_strict: usize, n_alias_text_diff: usize, n_json: usize, json_outcomes: BTreeMap<String, usize>, mutation_kinds: BTreeMap<String, usize>,
                styles: BTreeMap<String, usize>, n_back: usize, n_strict_equiv: usize }
 
 fn main() {
@@ -560,6 +579,8 @@ fn main() {
     let args = parse_args();
     let mut rng = Rng::new(args.seed);
     let thorough = args.tier == "thorough";
+    let cli: Option<std::path::PathBuf> = args.extra.iter().position(|a| a == "--cli").and_then(|i| args.extra.get(i + 1)).map(std::path::PathBuf::from);
+    let n_cli_projects = if thorough { 40 } else { 6 };
     let mut cases = Cases::new("From V Require Import Base.Util Gql.Ast Writer.Wop C15.Model C15.Spec C15.Corr.", "case", "agree", "holds", if thorough { 16 } else { 12 });
     let mut distinct: HashSet<String> = HashSet::new();
     let mut st = Stats::default();
@@ -649,6 +670,7 @@ fn main() {
             if f0.args.iter().all(|a| !a.ty.is_nonnull() || a.default.is_some()) { docs.push(("shadow-root".into(), format!("mutation {{ {}{} }}\n", f0.name, sel))); }
         }
         if let Some(b) = unused_builtin.first() { docs.push(("unused-builtin-variable".into(), format!("query Q($v: {b}) {{ __typename }}\n"))); }
+        let docs_for_cli: Vec<(String, String)> = docs.clone();
         for (dl, text) in docs {
             let doc = match load_operation(&text) { Ok(d) => d, Err(_) => continue };
             let e1: Vec<_> = check_operation(&ts_sdl, &doc).iter().map(error_summary).collect();
@@ -658,6 +680,30 @@ fn main() {
             distinct.insert(format!("{sdl}\n---\n{text}"));
             cases.push(format!("CVerdict {} {} {}", coq_str(&dl), coq_bool(e1.is_empty()), coq_bool(e2.is_empty())),
                 json!({"kind": "verdict", "label": dl, "sdl": sdl, "json": jt, "doc": text, "errors_sdl": format!("{e1:?}"), "errors_json": format!("{e2:?}")}));
+        }
+
+        // the real CLI on two projects that differ only in the schema file (route selection by extension,
+        // resolve_loaded_schema, extend_loaded_schema, check, generate)
+        if let Some(cli) = &cli {
+            if st.n_cli < n_cli_projects || (label == "shadow-root" && st.n_cli < n_cli_projects + 2) {
+                st.n_cli += 1;
+                let root = args.out.join("cli-projects");
+                let plain: Vec<String> = docs_for_cli.iter().filter(|(l, _)| l == "gen").map(|(_, d)| d.clone()).collect();
+                let labelled: Vec<String> = docs_for_cli.iter().filter(|(l, _)| l != "gen").map(|(_, d)| d.clone()).collect();
+                for (set_label, set) in [("gen", &plain), (if label == "shadow-root" { "shadow-root" } else { "unused-builtin-variable" }, &labelled)] {
+                    if set.is_empty() { continue; }
+                    let (ok1, t1, log1) = run_cli_project(cli, &root.join(format!("m{i}-{set_label}-sdl")), "schema.graphql", &sdl, set);
+                    let (ok2, t2, log2) = run_cli_project(cli, &root.join(format!("m{i}-{set_label}-json")), "schema.json", &jt, set);
+                    if ok1 != ok2 { st.n_cli_exit_diff += 1; }
+                    // the in-process runs above are the CLI's: same declaration file (modulo the indentation SourceWriter adds)
+                    let same1 = t1.as_ref().map_or(!ok1, |x| unindent(x) == unindent(&w1.text()));
+                    let same2 = t2.as_ref().map_or(!ok2, |x| unindent(x) == unindent(&w2.text()));
+                    cases.push(format!("CCli {} {} {} {} {}", coq_str(set_label), coq_bool(ok1), coq_bool(ok2), coq_bool(same1), coq_bool(same2)),
+                        json!({"kind": "cli", "label": set_label, "sdl": sdl, "json": jt, "docs": set, "exit_ok_sdl": ok1, "exit_ok_json": ok2,
+                               "schema_d_ts_matches_inprocess_sdl": same1, "schema_d_ts_matches_inprocess_json": same2,
+                               "log_sdl": log1.chars().take(1500).collect::<String>(), "log_json": log2.chars().take(1500).collect::<String>()}));
+                }
+            }
         }
     }
 
@@ -699,7 +745,7 @@ fn main() {
         "samples": samples,
         "distribution": {
             "models_both_routes": st.n_routes, "models_satisfying_model_ok (hypothesis of C15_routes_agree, checked in Coq per case)": st.n_guard, "styles": st.styles, "back_conversions": st.n_back,
-            "operation_documents": st.n_docs, "verdict_differences_observed": st.n_verdict_diff,
+            "cli_twin_projects": st.n_cli, "cli_exit_status_differences_observed": st.n_cli_exit_diff, "operation_documents": st.n_docs, "verdict_differences_observed": st.n_verdict_diff,
             "strict_equivalence_cases": st.n_strict_equiv, "alias_strict_cases": st.n_alias_strict, "models_with_alias_text_difference": st.n_alias_text_diff,
             "json_cases": st.n_json, "json_outcomes": st.json_outcomes, "mutation_kinds": st.mutation_kinds,
         },
